@@ -170,9 +170,15 @@ impl<'a> SectionsBuilder<'a> {
                 self.set_lines_range(plain.line_range);
             }
             Para(para) => {
-                if block.is_ref() {
+                // a link that stands alone is a block reference only if its url names a note
+                // (the empty url, `/`, `..` name the library or a directory: kept as written)
+                let reference_key = Some(block)
+                    .filter(|block| block.is_ref())
+                    .map(|block| Key::from_rel_link_url(&block.url().unwrap(), &self.key.parent()))
+                    .filter(|key| key.names_a_note());
+                if let Some(key) = reference_key {
                     self.builder.reference_with_text(
-                        &Key::from_rel_link_url(&block.url().unwrap(), &self.key.parent()),
+                        &key,
                         &block.ref_text().unwrap(),
                         block.ref_type().unwrap(),
                     )
